@@ -54,11 +54,14 @@ class SpecMixin:
             for k, v in cur_locals.items():
                 if k.startswith('_q_') or k in self.quant_vars:
                     fr.locals[k] = v
+            prev_in_old = self.in_old
+            self.in_old = True
             try:
                 v = self.eval(e.args[0])
                 v = self.detach(v, self.old_heap, cur_heap)
                 return v
             finally:
+                self.in_old = prev_in_old
                 self.heap, self.ghost = cur_heap, cur_ghost
                 fr.locals = cur_locals
         if name in ('forall_int', 'exists_int'):
@@ -100,9 +103,11 @@ class SpecMixin:
         had, prev = var in fr.locals, fr.locals.get(var)
         fr.locals[var] = k
         self.quant_vars.add(var)
+        self.bound_vars.append(k)
         try:
             body = zbool(self.truth(self.eval(gen.elt)))
         finally:
+            self.bound_vars.pop()
             self.quant_vars.discard(var)
             if had:
                 fr.locals[var] = prev
@@ -126,6 +131,12 @@ class SpecMixin:
                 return dst.alloc(Obj(o.cls, dict(o.fields)))
             if isinstance(o, DictObj):
                 return dst.alloc(DictObj({k: self.detach(x, src, dst) for k, x in o.items.items()}))
+            if isinstance(o, MapObj):
+                return dst.alloc(o.copy())        # frozen copy of the old arrays
+            if isinstance(o, Obj) and isinstance(o.cls, extract.ClassInfo) and '_od' in o.fields:
+                c = o.copy()
+                c.fields['_od'] = self.detach(o.fields['_od'], src, dst)
+                return dst.alloc(c)
         if isinstance(v, tuple):
             return tuple(self.detach(x, src, dst) for x in v)
         return v
@@ -182,6 +193,15 @@ class SpecMixin:
             return None      # filled by the contract's setup (needs `self`)
         if desc.startswith('const:'):
             return eval(desc[6:], {})
+        if desc == 'hvflags':
+            # a HeaderValidationFlags namedtuple with symbolic members
+            mod = self.P.modules['h2.utilities']
+            clsref = self.global_value(self.P.resolve_name(mod, 'HeaderValidationFlags'), 'HeaderValidationFlags')
+            clso = self.heap.get(clsref)
+            return self.heap.alloc(Obj(clso, {'is_client': self.sym_value('optbool', name + '.is_client'),
+                                               'is_trailer': self.fresh(name + '.is_trailer', 'bool'),
+                                               'is_response_header': self.fresh(name + '.is_response', 'bool'),
+                                               'is_push_promise': self.fresh(name + '.is_push', 'bool')}))
         if desc == 'hdrlist':
             from .hdrmodel import sym_hdrlist
             return sym_hdrlist(self, desc, name)
